@@ -111,7 +111,7 @@ package scorch
 //@   at return: ghost i.glast = ite(result1 == nil && result0 != nil, idNum(result0.ID), i.glast)
 //@   at return: ghost i.gseg = ite(result1 == nil && result0 != nil, i.segmentOffset, i.gseg)
 //@   ensures implies(result1 == nil, tfrShape(i) && tfrCursor(i))
-//@   ensures implies(result1 == nil && result0 != nil, i.gstarted && i.glast == idNum(result0.ID)) && implies(result0 == nil, i.gstarted == old(i.gstarted) && i.glast == old(i.glast) && i.gseg == old(i.gseg))
+//@   ensures implies(result1 == nil && result0 != nil, i.gstarted && i.glast == idNum(result0.ID) && i.gseg == i.segmentOffset) && implies(result0 == nil, i.gstarted == old(i.gstarted) && i.glast == old(i.glast) && i.gseg == old(i.gseg))
 //@   ensures i.snapshot == old(i.snapshot) && i.iterators == old(i.iterators)
 //@   ensures implies(result1 == nil && result0 != nil, implies(old(i.gstarted), idNum(result0.ID) > old(i.glast)) && idNum(result0.ID) >= i.snapshot.offsets[old(i.segmentOffset)] && i.currPosting != nil && i.currID == result0.ID)
 //@   ensures implies(result1 == nil && result0 != nil && old(i.segmentOffset) < len(i.iterators) && old(i.iterators[i.segmentOffset].pdone), old(i.segmentOffset) + 1 < len(i.iterators) && idNum(result0.ID) >= i.snapshot.offsets[old(i.segmentOffset)+1])
@@ -138,5 +138,5 @@ package scorch
 //@   at return: ghost i.glast = ite(result1 == nil && result0 != nil, idNum(result0.ID), i.glast)
 //@   at return: ghost i.gseg = ite(result1 == nil && result0 != nil, i.segmentOffset, i.gseg)
 //@   ensures implies(result1 == nil, tfrShape(i) && tfrCursor(i))
-//@   ensures implies(result1 == nil && result0 != nil, i.gstarted && i.glast == idNum(result0.ID)) && implies(result0 == nil, i.gstarted == old(i.gstarted) && i.glast == old(i.glast) && i.gseg == old(i.gseg))
+//@   ensures implies(result1 == nil && result0 != nil, i.gstarted && i.glast == idNum(result0.ID) && i.gseg == i.segmentOffset) && implies(result0 == nil, i.gstarted == old(i.gstarted) && i.glast == old(i.glast) && i.gseg == old(i.gseg))
 //@   ensures implies(result1 == nil && result0 != nil, idNum(result0.ID) >= old(idNum(ID)) && implies(old(i.gstarted), idNum(result0.ID) > old(i.glast)))
